@@ -1,4 +1,4 @@
-(* C11 — property theorems (statements only; proofs live in Acme.C11.{Proofs,Strings,RoundTrip,RoundTripEnum,RoundTripAttr,RoundTripMux}).
+(* C11 — property theorems (statements only; proofs live in Acme.C11.{Proofs,Strings,RoundTrip,RoundTripEnum,RoundTripAttr,RoundTripMux,RoundTripAll}).
    Model: Acme.C10.{Export,Import,BusModel}; `export_import b = import (text_roundtrip (export b))`.
    Partial: the whole-bus theorem `export_import_ast_plain_partial` is an AST-level statement (import of the
    exported AST after the MODELLED write/parse effect; names need not be identifiers) proved for PLAIN buses (standard signals,
@@ -15,16 +15,20 @@
    (exported as the well-known Gen* attributes and landing back in the fields);
    `export_import_ast_mux_partial` covers SIMPLE MULTIPLEXERS (`mbus`: per message at most one multiplexer
    at top level with standard children, each child in exactly one group, no attributes; the other signals of
-   such a message standard).  Not covered by a whole-bus theorem: nested / extended multiplexing (several
-   multiplexers per message, children in several groups or fixed), and multiplexers together with attributes
-   or enum signals in the same message.
+   such a message standard);
+   `export_import_ast_partial` is the MERGED whole-bus theorem (`ambus`): the structure of `mbus` (standard and
+   enum signals, descriptions, per message at most one simple multiplexer) TOGETHER WITH attribute assignments
+   and the six dedicated fields on every entity, including the message that holds a multiplexer, the
+   multiplexer itself and its children.  Not covered by a whole-bus theorem: nested / extended multiplexing
+   (several multiplexers per message, children in several groups or fixed), and ENUM signals inside a message
+   that holds a multiplexer (beside it or as its children).
    The full statement is
    Acme.C11.RoundTrip.export_import_full_statement (well_formed, names_ok spelled out there).
    The other ingredients are proved in isolation: the four attribute types (+hex) and their defaults
    through the write/parse effect, SG_MUL_VAL_ ranges, the start-bit conversion, the sanitiser. *)
 From Coq Require Import String ZArith List.
 From Acme.C10 Require Import DbcDoc BusModel Import Export Bits.
-From Acme.C11 Require Import Strings Proofs RoundTrip RoundTripEnum RoundTripAttr RoundTripMux Refuted.
+From Acme.C11 Require Import Strings Proofs RoundTrip RoundTripEnum RoundTripAttr RoundTripMux RoundTripAll Refuted.
 Import ListNotations.
 Open Scope Z_scope.
 
@@ -62,6 +66,14 @@ Theorem export_import_ast_mux_partial : forall b, mbus b ->
   exists b', export_import b = Ok b' /\ proj_bus b' = proj_bus b.
 Proof. exact RoundTripMux.export_import_mux_thm. Qed.
 Print Assumptions export_import_ast_mux_partial.
+
+(* the merged statement: standard + enum signals, descriptions, attributes and dedicated fields on every entity,
+   one simple multiplexer per message (children standard; a message that holds a multiplexer holds standard
+   signals besides it); attributes also on the multiplexer, its children and the message holding it *)
+Theorem export_import_ast_partial : forall b, ambus b ->
+  exists b', export_import b = Ok b' /\ proj_bus b' = proj_bus b.
+Proof. exact RoundTripAll.export_import_all_thm. Qed.
+Print Assumptions export_import_ast_partial.
 
 (* attribute definitions of the four types (and hex format), defaults included *)
 Theorem attr_def_roundtrip : forall k name d, wf_def d ->
